@@ -24,6 +24,7 @@
 EXTENDS RelAlg, FactorsImpl, Json, IOUtils, TLCExt
 Batch == JsonDeserialize(IOEnv.TRACE_FILE)
 BatchLits == Batch.lits
+BatchFixed == {Batch.fixed[i] : i \in DOMAIN Batch.fixed}
 N == Len(Batch.obs)
 VARIABLES tid
 vars == <<tid>>
